@@ -15,6 +15,7 @@ import (
 	"testing"
 
 	"fortio.org/log"
+	"grol.io/grol/eval"
 	"grol.io/grol/extensions"
 	"grol.io/grol/repl"
 	"pgregory.net/rapid"
@@ -61,9 +62,19 @@ var (
 	cfgUnrestricted = Config{Name: "unrestricted", HasLoad: true, HasSave: true, Unrestricted: true}
 )
 
+// Reinit is a later extensions.Init call in the same child process, made just before the attempts for name number At.
+// Init is documented as safe to call more than once; only the first call counts.
+type Reinit struct {
+	At  int    `json:"at"`
+	Nil bool   `json:"nil"` // Init(nil)
+	Cfg Config `json:"cfg"` // Init(&cfg) otherwise
+}
+
 type ChildArgs struct {
-	Cfg   Config   `json:"cfg"`
-	Names [][]byte `json:"names"`
+	Cfg    Config   `json:"cfg"`
+	Names  [][]byte `json:"names"`
+	Script string   `json:"script,omitempty"` // eval.State.CurrentFile during the attempts ("" = not set, as with -c / EvalString)
+	Reinit []Reinit `json:"reinit,omitempty"`
 }
 
 type NameResult struct {
@@ -158,10 +169,30 @@ func diffSnap(before, after map[string]string) string {
 
 // ---- the child: one IO configuration, many names --------------------------------------------------------------------
 
+// currentFile is what the interpreter state's CurrentFile is set to before each evaluation (main.go does that for a
+// script file given on the command line); "" leaves it alone.
+var currentFile string
+
 func evalIn(src string) (string, []string) {
 	opts := repl.EvalStringOptions()
+	if currentFile != "" {
+		opts.PreInput = func(s *eval.State) { s.CurrentFile = currentFile }
+	}
 	res, errs, _ := repl.EvalStringWithOption(context.Background(), opts, src)
 	return res, errs
+}
+
+func reinit(rs []Reinit, at int) {
+	for _, r := range rs {
+		if r.At != at {
+			continue
+		}
+		if r.Nil {
+			_ = extensions.Init(nil)
+			continue
+		}
+		_ = extensions.Init(&extensions.Config{HasLoad: r.Cfg.HasLoad, HasSave: r.Cfg.HasSave, LoadSaveEmptyOnly: r.Cfg.EmptyOnly, UnrestrictedIOs: r.Cfg.Unrestricted})
+	}
 }
 
 func childMain(raw json.RawMessage) int {
@@ -183,8 +214,10 @@ func childMain(raw json.RawMessage) int {
 		return emit()
 	}
 	root := filepath.Dir(mustGetwd())
+	currentFile = strings.ReplaceAll(args.Script, rootMark, root)
 	base := snapshot(root)
-	for _, name := range args.Names {
+	for i, name := range args.Names {
+		reinit(args.Reinit, i)
 		lit := val.StrSrc(string(name))
 		var r NameResult
 		lo, le := evalIn("load(" + lit + ")")
@@ -199,6 +232,7 @@ func childMain(raw json.RawMessage) int {
 		}
 		out.Results = append(out.Results, r)
 	}
+	reinit(args.Reinit, len(args.Names)) // a later Init that comes after every name, before the look for exec/run and image.save
 	_, ee := evalIn(`exec("true")`)
 	out.ExecErr = strings.Join(ee, " | ")
 	_, re := evalIn(`run("true")`)
@@ -264,10 +298,16 @@ func accepted(cfg Config, name string) (file string, ok bool) {
 
 const dirTarget = "aZ.gr" // see buildTree
 
+// Case: the first (and only effective) IO configuration, the names tried, and the process state around the attempts:
+// the path of the script being run (rootMark stands for the absolute path of the scratch tree) and later Init calls.
 type Case struct {
-	Cfg   Config   `json:"cfg"`
-	Names [][]byte `json:"names"`
+	Cfg    Config   `json:"cfg"`
+	Names  [][]byte `json:"names"`
+	Script string   `json:"script,omitempty"`
+	Reinit []Reinit `json:"reinit,omitempty"`
 }
+
+const rootMark = "{ROOT}"
 
 // judge compares the child's observations with the predicate.
 func judge(cfg Config, names [][]byte, out ChildOut) error {
@@ -356,6 +396,45 @@ func judge(cfg Config, names [][]byte, out ChildOut) error {
 }
 
 func runChild(cfg Config, names [][]byte) (ChildOut, error) {
+	return runCase(Case{Cfg: cfg}, names)
+}
+
+// plantSiblings puts, next to the script, the script itself and a sentinel for every file a plain name of the case
+// stands for (<stem>.gr, and .gr): whatever the script's location, none of them may be evaluated or touched unless
+// the script's directory is the working directory.
+func plantSiblings(root, script string, names [][]byte) error {
+	p := strings.ReplaceAll(script, rootMark, root)
+	if !filepath.IsAbs(p) {
+		p = filepath.Join(root, "cwd", p)
+	}
+	dir := filepath.Dir(p)
+	rel, err := filepath.Rel(root, dir)
+	if err != nil || rel == ".." || strings.HasPrefix(rel, "../") {
+		return fmt.Errorf("script %q is not inside the scratch tree", script)
+	}
+	if err := os.MkdirAll(dir, 0o755); err != nil {
+		return err
+	}
+	files := []string{filepath.Base(p), ".gr"}
+	for _, n := range names {
+		if stem, ok := plainStem(string(n)); ok {
+			files = append(files, stem+".gr")
+		}
+	}
+	for _, f := range files {
+		fp := filepath.Join(dir, f)
+		if _, err := os.Lstat(fp); err == nil {
+			continue // already there (a sentinel of the base tree, or planted for another name)
+		}
+		r, _ := filepath.Rel(root, fp)
+		if err := os.WriteFile(fp, []byte(sentinel(r)), 0o644); err != nil {
+			return err
+		}
+	}
+	return nil
+}
+
+func runCase(c Case, names [][]byte) (ChildOut, error) {
 	root, err := os.MkdirTemp("", "verif-c17-")
 	if err != nil {
 		return ChildOut{}, err
@@ -364,7 +443,13 @@ func runChild(cfg Config, names [][]byte) (ChildOut, error) {
 	if err := buildTree(root); err != nil {
 		return ChildOut{}, err
 	}
-	res := child.Spawn("c17", ChildArgs{Cfg: cfg, Names: names}, child.Opts{Dir: filepath.Join(root, "cwd"), Timeout: 0, RlimitFsize: -1})
+	if c.Script != "" {
+		if err := plantSiblings(root, c.Script, names); err != nil {
+			return ChildOut{}, err
+		}
+	}
+	cfg := c.Cfg
+	res := child.Spawn("c17", ChildArgs{Cfg: cfg, Names: names, Script: c.Script, Reinit: c.Reinit}, child.Opts{Dir: filepath.Join(root, "cwd"), Timeout: 0, RlimitFsize: -1})
 	if res.Err != nil || res.Exit != 0 || res.TimedOut {
 		return ChildOut{}, fmt.Errorf("child %s: %v stderr=%s", res, res.Err, tailStr(res.Stderr))
 	}
@@ -382,8 +467,34 @@ func tailStr(b []byte) string {
 	return string(b)
 }
 
+// context describes the process state of a case, for the failure message.
+func (c Case) context() string {
+	s := ""
+	if c.Script != "" {
+		s += fmt.Sprintf(" [script being run: %q]", c.Script)
+	}
+	for _, r := range c.Reinit {
+		if r.Nil {
+			s += fmt.Sprintf(" [Init(nil) again before name #%d]", r.At)
+		} else {
+			s += fmt.Sprintf(" [Init(%+v) again before name #%d]", r.Cfg, r.At)
+		}
+	}
+	return s
+}
+
 func check(c Case) error {
-	out, err := runChild(c.Cfg, c.Names)
+	if s := c.context(); s != "" {
+		if err := check1(c); err != nil {
+			return fmt.Errorf("%v%s", err, s)
+		}
+		return nil
+	}
+	return check1(c)
+}
+
+func check1(c Case) error {
+	out, err := runCase(c, c.Names)
 	if err != nil {
 		return fmt.Errorf("harness: %v", err)
 	}
@@ -395,9 +506,15 @@ func check(c Case) error {
 	for i := range c.Names {
 		rev[len(rev)-1-i] = c.Names[i]
 	}
-	out2, err := runChild(c.Cfg, rev)
+	out2, err := runCase(c, rev)
 	if err != nil {
 		return fmt.Errorf("harness: %v", err)
+	}
+	if c.context() != "" {
+		// with process state around the attempts, the other order puts other names after the later Init calls
+		if err := judge(c.Cfg, rev, out2); err != nil {
+			return fmt.Errorf("%v (names in reversed order)", err)
+		}
 	}
 	for i := range c.Names {
 		a, b := out.Results[i], out2.Results[len(rev)-1-i]
